@@ -127,6 +127,22 @@ let do_sparse args =
     "R " ^ String.concat " " toks
   | _ -> "R BADREQ"
 
+(* ---- stream rs:  R <k> <n> <cb 0/1> <api 0/1> <finish 0/1> <esi> ...  (RS API model) *)
+let tabmask t = String.concat "" (List.map (fun x -> match x with Some _ -> "1" | None -> "0") t)
+let tabletters t = String.concat "" (List.map (fun x -> match x with Some true -> "R" | Some false -> "D" | None -> ".") t)
+let do_rs args =
+  match args with
+  | k :: n :: cb :: api :: fin :: esis ->
+    let ((obs, f), evs) = rs_session (nat_of_int (int_of_string k)) (nat_of_int (int_of_string n)) (cb = "1") (api = "1") (fin = "1")
+        (List.map (fun e -> nat_of_int (int_of_string e)) esis) in
+    let show c o = Printf.sprintf "%c%d%d:%s" c (int_of_nat o.ro_status) (if o.ro_complete then 1 else 0) (tabmask o.ro_tab) in
+    let last = ref None in
+    let toks = List.map (fun o -> last := Some o; show 'S' o) obs in
+    let toks = match f with None -> toks | Some o -> last := Some o; toks @ [show 'F' o] in
+    let e = match !last with None -> "E" ^ String.make (int_of_string k) '.' | Some o -> "E" ^ tabletters o.ro_tab in
+    String.concat " " (toks @ [e; "CB" ^ String.concat "," (List.map (fun x -> string_of_int (int_of_nat x)) evs)])
+  | _ -> "BADREQ"
+
 let () =
   try
     while true do
@@ -138,6 +154,7 @@ let () =
       | "K" :: args -> print_endline (do_kern args)
       | "I" :: args -> print_endline (do_it args)
       | "M" :: args -> print_endline (do_sparse args)
+      | "R" :: args -> print_endline (do_rs args)
       | _ -> print_endline "BADREQ"
     done
   with End_of_file -> ()
